@@ -81,6 +81,7 @@ let wrap_op ws : QW.wop option = match ws with
 let grow_op ws : QW.gop option = match ws with
   | ["add"; d] -> Some (QW.GAdd (data_of d))
   | ["addstr"; d] -> Some (QW.GAddStr (data_of d))
+  | ["addstrf"; d] -> Some (QW.GAddStr (data_of d))   (* the formatted variant: "%s" of the same text *)
   | ["size"] -> Some QW.GSize
   | ["datasize"] -> Some QW.GDataSize
   | ["toarray"] -> Some QW.GToArray
